@@ -387,6 +387,7 @@ pub fn run_check(spec: &Spec, tier: Tier, extra_lanes: &[LaneResult]) -> i32 {
         }
     }
     let mut inconclusive: Vec<String> = vec![];
+    let mut confirmed_deaths = 0u32;
     if DEBUG_LANE_PROPS.contains(&spec.id) && n_debug == 0 {
         inconclusive.push("overflow-checked debug-build lane did not run (HCVERIF_DEBUG_BIN missing)".into());
     }
@@ -422,6 +423,11 @@ pub fn run_check(spec: &Spec, tier: Tier, extra_lanes: &[LaneResult]) -> i32 {
             let code = status.and_then(|s| s.code());
             let case: Option<u64> = st.split_whitespace().nth(1).and_then(|s| s.parse().ok());
             match (code, case) {
+                (_, Some(case)) if confirmed_deaths >= 2 => {
+                    // the run already has confirmed hangs/aborts (=> violated): further dead shards
+                    // are recorded without spending minutes on re-confirming each of them
+                    notes.push(format!("shard {i} also died (exit {:?}) at case {case}; not re-confirmed", code));
+                }
                 (_, Some(case)) => {
                     let what = if code == Some(3) { "hang" } else { "abort" };
                     let out2 = scratch.join(format!("confirm{i}"));
@@ -442,7 +448,7 @@ pub fn run_check(spec: &Spec, tier: Tier, extra_lanes: &[LaneResult]) -> i32 {
                             "--only-case",
                             &case.to_string(),
                             "--hang-mult",
-                            "5",
+                            "3",
                         ])
                         .stdout(Stdio::null())
                         .status();
@@ -451,6 +457,7 @@ pub fn run_check(spec: &Spec, tier: Tier, extra_lanes: &[LaneResult]) -> i32 {
                         Err(_) => false,
                     };
                     if confirmed {
+                        confirmed_deaths += 1;
                         violations.push(json!({
                             "sig": format!("{what}:case"),
                             "detail": format!("worker process died ({what}, exit {:?}) while running case {case}; reproduced when the case was re-run alone", code),
